@@ -766,3 +766,23 @@ def build13(m):
         ghost_init={'g_leader': (STR, "'-'"), 'g_content': (STR, "''")},
         ghost_after={'_, _, leader, content = marker_tuple': [('g_leader', 'leader'), ('g_content', 'content')]},
         pure=True, prop=['C01', 'C14', 'C03']), classmethod_=True)
+
+
+def build14(m):
+    """parse_continuation verified against the capture contract of continuation_pattern (C01)."""
+    MCP = TRef('MatchCP')
+    m.classes['MatchCP'] = {}
+    m.ufunc('cp_matches', [STR], BOOL)
+    m.ufunc('cp_group', [MCP, INT], STR)
+    m.class_attrs[('ListItem', 'continuation_pattern')] = ('const', mk_obj('pattern', 'ListItem.continuation_pattern'))
+    m.add(Contract('re:ListItem.continuation_pattern.match', [('s', STR)], returns=TOpt(MCP), trusted=True, pure=True,
+                   ensures=['is_none(result) == (not cp_matches(s))'],
+                   note='A5 capture contract of ([ \\t]*)(\\S.*\\n|\\n): the pattern does NOT match every line '
+                        '(a line that continues with non-ASCII whitespace after the blanks has no match)'))
+    m.methods[('MatchCP', 'group')] = 're:MatchCP.group'
+    m.add(Contract('re:MatchCP.group', [('self', MCP), ('n', INT)], returns=STR, trusted=True, pure=True,
+                   ensures=['result == cp_group(self, n)']))
+    c = m.contracts[MOD + ':ListItem.parse_continuation']
+    c.trusted = False
+    c.note = 'verified against the capture contract re:ListItem.continuation_pattern.match'
+    c.prop = ['C01']
